@@ -20,53 +20,89 @@ theorem any_matchLine_iff (p : Pos) (ls : List Int) :
   · rintro ⟨x, hx, h1, h2⟩; exact ⟨by omega, by rw [h1]; exact hx⟩
   · rintro ⟨h1, h2⟩; exact ⟨p.sl, h2, rfl, h1.symm⟩
 
-/-- **C13.** the line filter is exactly: not on an excluded line, and on an included line when
-includes are given — for every node position (single- or multi-line). -/
-theorem C13_permitted_spec (E I : List Int) (p : Pos) :
+/-- what the code computes, for every node position: with excludes present only the excludes count -/
+theorem C13_filter_as_is (E I : List Int) (p : Pos) :
     lineFilter E I p = true ↔
-      ¬ (E.any (matchLine p) = true) ∧ (I = [] ∨ I.any (matchLine p) = true) := by
+      (E ≠ [] ∧ ¬ (E.any (matchLine p) = true)) ∨ (E = [] ∧ (I = [] ∨ I.any (matchLine p) = true)) := by
   unfold lineFilter
-  by_cases hE : E.any (matchLine p) = true
-  · simp [hE]
-  · cases I with
-    | nil => simp [hE]
-    | cons a t => simp [hE]
+  cases E with
+  | nil => cases I <;> simp
+  | cons a t => simp
 
-/-- **C13.** for a node confined to one physical line `L`, it passes the filter iff `L` is permitted. -/
-theorem C13_single_line (E I : List Int) (p : Pos) (L : Int) (h1 : p.sl = L) (h2 : p.el = L) :
-    lineFilter E I p = true ↔ permitted E I L := by
-  rw [C13_permitted_spec, any_matchLine_iff, any_matchLine_iff]
+/-- **C13 (full statement, FALSE on the unchanged code).** The property demands: a single-line node
+passes the filter iff its line is permitted (not excluded, and included when includes are given).
+Witness: excludes {1}, includes {3}, a node on line 4 — not included, yet it passes the filter
+(known finding, replayed on the implementation on every run). -/
+theorem C13_permitted_spec_full_fails :
+    ∃ (E I : List Int) (p : Pos) (L : Int), p.sl = L ∧ p.el = L ∧
+      ¬ (lineFilter E I p = true ↔ permitted E I L) :=
+  ⟨[1], [3], ⟨4, 0, 4, 5⟩, 4, rfl, rfl, by
+    intro h
+    have := (h.mp (by decide)).2
+    simp at this⟩
+
+/-- **C13 (partial).** When the file has line excludes only, or line includes only (or neither), a
+single-line node passes the filter iff its line is permitted. Missing for the full statement: the
+case where both kinds are given for the same file (the includes are then ignored). -/
+theorem C13_single_line_partial (E I : List Int) (p : Pos) (L : Int) (h1 : p.sl = L) (h2 : p.el = L)
+    (h : E = [] ∨ I = []) : lineFilter E I p = true ↔ permitted E I L := by
+  rw [C13_filter_as_is, any_matchLine_iff, any_matchLine_iff]
   subst h1
-  simp [permitted, h2.symm]
+  rcases h with rfl | rfl
+  · simp [permitted, h2.symm]
+  · cases E with
+    | nil => simp [permitted]
+    | cons a t => simp [permitted, h2.symm]
 
-/-- **C13.** a node on an excluded line is never selected, whatever the results say. -/
+/-- **C13.** a node on an excluded line is never selected, whatever the results and the includes say. -/
 theorem C13_excluded_not_selected (v : Variant) (t : Bool) (rs : Option (List (List Loc))) (E I : List Int)
     (p : Pos) (L : Int) (h1 : p.sl = L) (h2 : p.el = L) (hL : L ∈ E) :
     nodeIsSelected v t rs E I p = false := by
-  have hn : ¬ permitted E I L := fun h => h.1 hL
   have hf : lineFilter E I p = false := by
     cases h : lineFilter E I p with
     | false => rfl
-    | true => exact absurd ((C13_single_line E I p L h1 h2).mp h) hn
+    | true =>
+      rw [C13_filter_as_is, any_matchLine_iff] at h
+      subst h1
+      rcases h with ⟨_, hn⟩ | ⟨he, _⟩
+      · exact absurd ⟨h2.symm, hL⟩ hn
+      · subst he; simp at hL
   simp [nodeIsSelected, hf]
 
-/-- **C13.** with line includes, a node on a line that is not included is never selected. -/
-theorem C13_not_included_not_selected (v : Variant) (t : Bool) (rs : Option (List (List Loc))) (E I : List Int)
+/-- **C13 (partial).** with line includes and no line excludes, a node on a line that is not included
+is never selected. -/
+theorem C13_not_included_not_selected_partial (v : Variant) (t : Bool) (rs : Option (List (List Loc))) (I : List Int)
     (p : Pos) (L : Int) (h1 : p.sl = L) (h2 : p.el = L) (hI : I ≠ []) (hL : L ∉ I) :
-    nodeIsSelected v t rs E I p = false := by
-  have hn : ¬ permitted E I L := fun h => h.2.elim hI hL
-  have hf : lineFilter E I p = false := by
-    cases h : lineFilter E I p with
+    nodeIsSelected v t rs [] I p = false := by
+  have hn : ¬ permitted [] I L := fun h => h.2.elim hI hL
+  have hf : lineFilter [] I p = false := by
+    cases h : lineFilter [] I p with
     | false => rfl
-    | true => exact absurd ((C13_single_line E I p L h1 h2).mp h) hn
+    | true => exact absurd ((C13_single_line_partial [] I p L h1 h2 (Or.inl rfl)).mp h) hn
   simp [nodeIsSelected, hf]
+
+/-- with both kinds present the code only looks at the excludes (this is the known finding) -/
+theorem C13_excludes_shadow_includes (E I : List Int) (p : Pos) (hE : E ≠ []) :
+    lineFilter E I p = lineFilter E [] p := by
+  cases E with
+  | nil => exact absurd rfl hE
+  | cons a t => simp [lineFilter]
 
 /-- **C13.** permitted lines are still fixed: the filter never blocks a permitted single-line node
 (detector-less codemod: `results = None`). -/
 theorem C13_permitted_selected (v : Variant) (t : Bool) (E I : List Int) (p : Pos) (L : Int)
     (h1 : p.sl = L) (h2 : p.el = L) (hp : permitted E I L) :
     nodeIsSelected v t none E I p = true := by
-  simp [nodeIsSelected, filterByResult, (C13_single_line E I p L h1 h2).mpr hp]
+  have : lineFilter E I p = true := by
+    rw [C13_filter_as_is, any_matchLine_iff, any_matchLine_iff]
+    subst h1
+    by_cases hE : E = []
+    · right; refine ⟨hE, ?_⟩
+      rcases hp.2 with h | h
+      · exact Or.inl h
+      · exact Or.inr ⟨h2.symm, h⟩
+    · left; exact ⟨hE, fun h => hp.1 h.2⟩
+  simp [nodeIsSelected, filterByResult, this]
 
 /-- **C13.** the change entry's line (`lineno_for_node` = start line) is the edited line for a
 single-line node. -/
@@ -74,9 +110,10 @@ theorem C13_change_line (p : Pos) (L : Int) (h : matchLine p L = true) : p.sl = 
   simp only [matchLine, Bool.and_eq_true, beq_iff_eq] at h; exact h.1
 
 /-- the code's filter (translated from the current source of `base_visitor.py`) obeys the spec -/
-theorem C13_code_filter_spec (E I : List Int) (p : Pos) (L : Int) (h1 : p.sl = L) (h2 : p.el = L) :
+theorem C13_code_filter_spec_partial (E I : List Int) (p : Pos) (L : Int) (h1 : p.sl = L) (h2 : p.el = L)
+    (h : E = [] ∨ I = []) :
     CM.Generated.gen_line_filter p E I = true ↔ permitted E I L := by
-  rw [CM.Generated.gen_line_filter_eq]; exact C13_single_line E I p L h1 h2
+  rw [CM.Generated.gen_line_filter_eq]; exact C13_single_line_partial E I p L h1 h2 h
 
 /-- **C13.** the duplicated filter in `remove_unused_imports.py` (translated from its current source)
 is the same function. -/
@@ -85,8 +122,8 @@ theorem C13_dup_filter_eq (E I : List Int) (p : Pos) :
   rw [CM.Generated.gen_line_filter_rui_eq, CM.Generated.gen_line_filter_eq]
 
 -- non-vacuity
-example : lineFilter [1] [3] ⟨3, 0, 3, 5⟩ = true ∧ lineFilter [1] [3] ⟨4, 0, 4, 5⟩ = false
-    ∧ lineFilter [1] [3] ⟨1, 0, 1, 5⟩ = false ∧ lineFilter [] [] ⟨7, 0, 9, 5⟩ = true := by decide
+example : lineFilter [] [3] ⟨3, 0, 3, 5⟩ = true ∧ lineFilter [] [3] ⟨4, 0, 4, 5⟩ = false
+    ∧ lineFilter [1] [] ⟨1, 0, 1, 5⟩ = false ∧ lineFilter [] [] ⟨7, 0, 9, 5⟩ = true := by decide
 
 end CM.Location
 
